@@ -320,11 +320,17 @@ package parse
 //@   pure
 //@   ensures[S] true
 //@ extern bytes.Equal
+//@   pure
 //@   ensures[S] result ==> len(a) == len(b)
 
 // ---- whitespace / entity normalisation (C17): memory safety, in-place, never longer
 //@ func ReplaceMultipleWhitespace
 //@   ensures[S]  len(result) <= len(b) && (within(result, b) || len(result) == 0)
+// every run of white space is rewritten to a single space, or to a newline if it contained a line break: after an iteration
+// that started on a white-space byte, that byte holds ' ' or '\n' (whatever the run's length; compaction never writes there)
+//@   loop 1 transition[F,C17] @run-normalised: isWS(prev(b[i])) ==> b[prev(i)] == ' ' || b[prev(i)] == '\n'
+//@   loop 2 invariant[F] @newline-kept: (b[start] == '\n' || b[start] == '\r') ==> newline
+//@   loop 1 transition[F,C17] @run-newline: isWS(prev(b[i])) && (prev(b[i]) == '\n' || prev(b[i]) == '\r') ==> b[prev(i)] == '\n'
 //@   loop * candidate 0 <= i && i <= len(b)
 //@   loop * candidate 0 <= j && j <= k && k <= i
 //@   loop * candidate 0 <= i && i <= len(b) + 1
@@ -338,6 +344,10 @@ package parse
 //@   loop 2 decreases len(b) - i
 
 //@ extern strconv.AppendInt
+//@   modifies M.uint8
+//@   ensures[S] @frame: sameBytesExcept(ptr(dst), ptr(dst) + cap(dst))
+//@   ensures[S] @result-mem: (ptr(result) == ptr(dst) && cap(result) == cap(dst)) || fresh(result)
+//@   ensures[S] @prefix: forall(k, 0, len(dst), result[k] == old(dst[k]))
 //@   ensures[S] len(result) >= len(dst) + 1 && len(result) <= len(dst) + 20
 //@   ensures[S] base == 10 && 0 <= i && i < 10 ==> len(result) == len(dst) + 1
 //@   ensures[S] base == 10 && 10 <= i && i < 100 ==> len(result) == len(dst) + 2
@@ -348,10 +358,15 @@ package parse
 // a replacement is never longer than the reference it replaces.
 //@ pred isRefChar(c) := ('0' <= c && c <= '9') || ('a' <= c && c <= 'z') || ('A' <= c && c <= 'Z') || c == '#'
 //@ func replaceEntities
+// a numeric reference is written as a literal byte only if that byte is ASCII (otherwise it would not be UTF-8 and would
+// decode differently); what replaces it therefore starts with an ASCII byte. The reverse map holds references ('&...').
+//@   ensures[F,C17,perpath] @numeric-ascii: old(b[i+1]) == '#' && len(result0) < len(b) ==> result0[i] < 128
 // a reference is not decoded to a bare '&' in front of something that would then read as a reference itself
-//@   ensures[F,C17] @amp-guard: len(result0) < len(b) && result1 == i && result0[i] == '&' && i + 1 < len(result0) ==> !isRefChar(result0[i+1])
+//@   ensures[F,C17,perpath] @amp-guard: len(result0) < len(b) && result1 == i && result0[i] == '&' && i + 1 < len(result0) ==> !isRefChar(result0[i+1])
+// a reference is rewritten in place: nothing in front of the '&' changes
+//@   ensures[F,C17,perpath] @prefix-kept: forall(x, 0, i, result0[x] == old(b[x]))
 //@   mapspec entitiesMap: ok ==> len(value) <= len(key) + 2
-//@   mapspec revEntitiesMap: ok ==> len(value) <= n && len(value) >= 2
+//@   mapspec revEntitiesMap: ok ==> len(value) <= n && len(value) >= 2 && value[0] == '&'
 //@   requires[S] 0 <= i && i+3 < len(b) && b[i] == '&'
 //@   ensures[S]  len(result0) <= len(b) && ptr(result0) == ptr(b) && cap(result0) == cap(b)
 //@   ensures[S]  i - 1 <= result1 && result1 < len(result0)
@@ -374,10 +389,13 @@ package parse
 //@   loop 1 decreases 2*len(b) - i
 
 //@ func ReplaceMultipleWhitespaceAndEntities
-//@   noverify
 //@   mapspec entitiesMap: ok ==> len(value) <= len(key) + 2
 //@   mapspec revEntitiesMap: ok ==> len(value) <= n && len(value) >= 2
 //@   ensures[S,C17] @never-longer: len(result) <= len(b)
+// as in ReplaceMultipleWhitespace: the first byte of every white-space run holds ' ' or '\n' after the iteration that met it
+//@   loop 1 transition[F,C17] @run-normalised: isWS(prev(b[i])) ==> b[prev(i)] == ' ' || b[prev(i)] == '\n'
+//@   loop 1 invariant 0 <= j && j <= k && k <= i && i <= len(b) + 1 && k <= len(b) && len(b) <= len(old(b)) && ptr(b) == ptr(old(b)) && cap(b) == cap(old(b)) && ((j == 0) == (k == 0)) && (j != 1 || 2 <= k)
+//@   loop 2 invariant 0 <= j && j <= k && k <= start && start < i && i <= len(b) && len(b) <= len(old(b)) && ptr(b) == ptr(old(b)) && cap(b) == cap(old(b)) && ((j == 0) == (k == 0)) && (j != 1 || 2 <= k)
 //@   loop * candidate 0 <= j && j <= k && k <= i
 //@   loop * candidate -1 <= i && i <= len(b) + 1
 //@   loop * candidate 0 <= i && i <= len(b) + 1
